@@ -53,7 +53,7 @@ ASSUMPTIONS = [
 BUDGET = {"quick": {"worker_timeout": 900, "case_timeout": 150}, "thorough": {"worker_timeout": 3300, "case_timeout": 300}}
 SHARDS_PER_JOB = 2
 REQUIRED_COUNTERS = {
-    "quick": {"chained_input_cases": 150, "nonlinear_loss_cases": 150, "reassign_compared_second": 50, "abort_reuse_compared": 20, "compared_first_nograph": 800, "compared_first_graph": 800, "compared_second": 780,
+    "quick": {"chained_input_cases": 150, "nonlinear_loss_cases": 150, "reassign_compared_second": 50, "abort_reuse_compared": 20, "alias_change_compared": 20, "noparam_compared": 20, "compared_first_nograph": 800, "compared_first_graph": 800, "compared_second": 780,
               "backward_solver_calls": 1500, "bck_method_checked": 450, "spy_backward_calls": 200, "fwd_cg": 100,
               "fwd_bicgstab": 100, "fwd_gmres": 80, "fwd_broyden1": 70, "fwd_custom_exactsolve": 70, "fwd_exactsolve": 50,
               "bckran_cg": 400, "bckran_bicgstab": 250, "bckran_gmres": 200, "bckran_broyden1_solve": 130,
@@ -62,7 +62,7 @@ REQUIRED_COUNTERS = {
               "zero_rhs_cases": 20, "normal_equation_backward": 60, "frozen_input_cases": 40, "real_E_in_complex_system": 5,
               "akind_dense_autoherm": 12, "akind_jac": 10, "akind_add_shared": 10, "akind_adj_mv": 10, "akind_mv_inside": 15,
               "mkind_shared": 80},
-    "thorough": {"chained_input_cases": 1500, "nonlinear_loss_cases": 1500, "reassign_compared_second": 500, "abort_reuse_compared": 200, "compared_first_nograph": 6400, "compared_first_graph": 6400, "compared_second": 6240,
+    "thorough": {"chained_input_cases": 1500, "nonlinear_loss_cases": 1500, "reassign_compared_second": 500, "abort_reuse_compared": 200, "alias_change_compared": 200, "noparam_compared": 200, "compared_first_nograph": 6400, "compared_first_graph": 6400, "compared_second": 6240,
                  "backward_solver_calls": 12000, "bck_method_checked": 3600, "spy_backward_calls": 1600, "fwd_cg": 800,
                  "fwd_bicgstab": 800, "fwd_gmres": 640, "fwd_broyden1": 560, "fwd_custom_exactsolve": 560,
                  "fwd_exactsolve": 400, "bckran_cg": 3200, "bckran_bicgstab": 2000, "bckran_gmres": 1600,
